@@ -96,7 +96,8 @@ def run_c20(tape, r, tier, sandbox):
     if nhosts > 1:
         r.probes['multi_origin'] += 1
     for p in pages[1:]:
-        if tape.chance(1, 5, 'site.nofollow'):
+        # (a page that other scrapers read as well - '.js' in its path - is declared nofollow more often: the declaration holds for the page)
+        if tape.chance(1, 2 if '.jsp' in p.path else 5, 'site.nofollow'):
             p.nofollow = True
             r.probes['nofollow_page'] += 1
     site.finalize()
